@@ -24,6 +24,11 @@ LITERAL_WORDS = ["true", "false", "True", "False", "null", "None", "nil", "yes",
                  "e5", "x1F", "_0", "little", "big", "TRUE", "FALSE"]
 
 
+KNOWN_KEYS = ["endianess", "endianness", "endian", "byte_order", "mux_count", "mux_signal", "bitstart", "bit_start", "start", "length",
+              "scale", "offset", "min", "max", "min_value", "max_value", "unit", "comment", "type", "id", "bus", "device", "period",
+              "name", "services", "dlc", "signed", "is_signed"]
+
+
 KEYWORD_PREFIXED = ["assist", "asas", "ass5_a", "as_", "format", "forS", "implement", "implcan", "modulo", "models",
                     "signals", "signalled", "enumerate", "enums", "structure2", "versions", "devices", "deviceA",
                     "serviceable", "methodical", "returnsX", "Optionals", "units", "ranges", "modx", "fork"]
@@ -143,6 +148,12 @@ def gen_kv(r, lo, hi, fixed=None):
         keys.add(k)
     for _ in range(r.randint(lo, hi)):
         k = ident(r, avoid=keys)
+        if r.random() < 0.3:
+            # keys the back ends give a meaning to, in every spelling found in the wild (several at once): to the
+            # front end and to reflection they are keys like any other
+            k = r.choice(KNOWN_KEYS)
+            if k in keys:
+                continue
         keys.add(k)
         out.append((k, gen_value(r)))
     return out
